@@ -319,7 +319,8 @@ def other_layouts(ctx):
     k0 = sk.sk(s0)
     for c in cons:
       k = sk.sk(c.result)
-      diffs = flatten_diff(k0, k)
+      # SM3 keeps one accumulator per tensor axis: under the rank-1 witness per-axis lists have exactly one entry
+      diffs = flatten_diff(k0, k, star_len=1 if rank1 else None)
       ctx.ob('C07.R2', fu.short, f'sm3 layout fixed point [rank1={rank1}]', not diffs,
              f'SM3 per-parameter state changes layout after an update: {[(p, short(a), short(b)) for p, a, b in diffs[:2]]}', ctx.loc(fu),
              sample='sm3: skeleton(init) == skeleton(update)')
